@@ -350,11 +350,15 @@ class Enumerator:
                 return UNK
             if h == "=":
                 return all(_key(vals[0]) == _key(v) for v in vals[1:])
-            try:
-                a, b = vals
-                return {"<": a < b, "<=": a <= b, ">": a > b, ">=": a >= b}[h]
-            except TypeError:
-                raise SmtError("order comparison between non-integers %r" % (vals,))
+            a, b = vals
+            if isinstance(a, str) or isinstance(b, str):
+                # an Int-sorted uninterpreted term (uninterpreted_int encoding) compared with something: the only
+                # such constraints the tool emits are range constraints 0 <= v < 2^256, which the free term can
+                # always satisfy; anything else is outside the fragment
+                if isinstance(a, str) and isinstance(b, str):
+                    raise SmtError("order comparison between two uninterpreted terms %r" % (vals,))
+                return True
+            return {"<": a < b, "<=": a <= b, ">": a > b, ">=": a >= b}[h]
         return self.term_value(f, A)
 
     # ---------------------------------------------------------------- propagation
